@@ -1317,6 +1317,16 @@ pub fn parse(lex_tokens: &Vec<LexerToken>) -> Result<ParseResult, CompilerError>
         unclosed_grouping_error(&last_token)?;
     }
 
+    // an operator with an optional right operand followed only by annotations
+    // still points at the node that would have come next, unset it
+    let node_count = nodes.len();
+    for node in nodes.iter_mut() {
+        match node.right {
+            Some(r) if r >= node_count => node.right = None,
+            _ => (),
+        }
+    }
+
     // being empty allowed
     // could be a file of just line annotations
     if nodes.is_empty() {
